@@ -793,6 +793,7 @@ func runC11(r *core.Run) {
 	r.Floor("histories_with_log_id_hole_in_the_middle", int64(n/4))
 	r.Floor("histories_with_first_log_id_above_1", int64(n/6))
 	r.Floor("first_write_kinds", int64(len(c11Pairs)))
+	r.Floor("histories_longer_than_two_export_pages", int64(n/20))
 	r.ForEach("hist", n, 0, func(c *core.Case) {
 		rng := c.Rng
 		e := sim.NewEnv(sim.Options{})
@@ -812,6 +813,11 @@ func runC11(r *core.Run) {
 			}
 		}
 		nops := 4 + rng.Intn(r.N(25, 40))
+		if c.Index%16 == 5 {
+			// a source with more logs than one export page (the export walks the logs 100 at a time)
+			nops = 205 + rng.Intn(20)
+			r.Count("histories_longer_than_two_export_pages", 1)
+		}
 		for i := 0; i < nops; i++ {
 			if !clean && i > 0 && rng.Intn(6) == 0 {
 				src.burn("middle")
